@@ -169,3 +169,17 @@ fn c09g_pipeline_witness() {
     let _ = convert_to_gear_id(&id);
     assert!(false);
 }
+
+// ------------------------------------------------------------------------------------- C17
+/// a gear-set file whose header announces an EMPTY body (content size 0 -- e.g. a file the game
+/// pre-allocated but never filled, or a zeroed one) is rejected or read, never a panic
+#[kani::proof]
+#[kani::unwind(24)]
+fn c17_gearsets_header_with_empty_body() {
+    let mut b: [u8; 20] = kani::any();
+    b[0] = 0x05; b[1] = 0x00; b[2] = 0x6d; b[3] = 0x00;       // GEARSET.DAT tag
+    b[8] = 0; b[9] = 0; b[10] = 0; b[11] = 0;                 // content size 0
+    let r = GearSets::from_existing(&b);
+    kani::cover!(r.is_none());
+    core::mem::forget(r);
+}
